@@ -1017,7 +1017,9 @@ class TensorDictParams(TensorDictBase, nn.Module):
         self._is_locked = False
 
         if not self._lock_content:
-            return self._param_td._propagate_unlock()
+            # the content itself must be checked too (`unlock_` refuses, and locks again, when one of the
+            # tensordicts it unlocked is held by another locked tensordict)
+            return self._param_td._propagate_unlock() + [self._param_td]
         return []
 
     unlock_ = TensorDict.unlock_
